@@ -48,6 +48,10 @@ class Suite:
     def builds(self, prop, tier):
         return ["pure"] if tier == "quick" else ["pure", "compiled"]
 
+    def extra_workers(self, prop, tier):
+        """[(worker script, family, n, extra argv)]: further oracle-only runs whose failures for `prop` count"""
+        return []
+
 
 def load_lines(path):
     with open(path) as f:
@@ -157,9 +161,25 @@ def run(suite, prop, tier, seed, replay=None):
             jobs.append((worker_argv(suite, family, seed * 1000 + bi * 100 + j, per_job if bi == 0 else max(1, per_job // 2), pref, extra),
                          C.py_env(bdir, (seed * 31 + j) % 1000)))
             prefixes.append((pref, bdir, bname))
-    C.run_jobs(jobs)
+    xjobs, xprefs = [], []
+    for wi, (wscript, wfam, wn, wextra) in enumerate(suite.extra_workers(prop, tier)):
+        xs = Suite()
+        xs.worker = wscript
+        xpref = os.path.join(sc, "%s_extra_%d" % (prop, wi))
+        xjobs.append((worker_argv(xs, wfam, seed * 1000 + 900 + wi, wn, xpref, wextra), C.py_env(pure, (seed * 31 + wi) % 1000)))
+        xprefs.append((xpref, xs))
+    C.run_jobs(jobs + xjobs)
 
     stats_total, failures = {}, []
+    extra_failures = []
+    for xpref, xs in xprefs:
+        res = json.load(open(xpref + ".res.json"))
+        for k, val in res["stats"].items():
+            if isinstance(val, (int, float)):
+                stats_total["extra:" + k] = stats_total.get("extra:" + k, 0) + val
+        for fl in res["failures"]:
+            if fl["property"] == prop:
+                extra_failures.append((xpref, xs, fl))
     for pref, bdir, bname in prefixes:
         res = json.load(open(pref + ".res.json"))
         for k, val in res["stats"].items():
@@ -187,6 +207,8 @@ def run(suite, prop, tier, seed, replay=None):
         if fl["hist"] >= 1000 and not fl.get("known"):
             ops = shrink(suite, bdir, family, ops, prop, fl["kind"])
         v.failing_input(fl, {"suite": suite.name, "family": family, "ops": ops})
+    for xpref, xs, fl in extra_failures[:3]:
+        v.failing_input(fl, {"suite": xs.worker, "ops": history_ops(xs, xpref, fl["hist"])})
     if not v.violations:
         if lean_problems:
             v.broken("lean: " + "; ".join(lean_problems)[:600], {"suite": suite.name, "theorem_or_obligation": lean_problems[:5]})
